@@ -138,6 +138,27 @@ def twin_projects(rng, n):
     return out
 
 
+def near_name_projects():
+    """includers that are suspended at the same time and whose paths are nearly the same: they differ
+    only by letter case (distinct files on this file system), or share their base name in different
+    directories; each of them itself contains an INCLUDE.  All of these are legal and acyclic."""
+    out = []
+    out.append({"root.jst": b"JSIGHT 0.3\nINCLUDE parts/Types.jst\n",
+                "parts/Types.jst": b"TYPE @A any\nINCLUDE types.jst\n",
+                "parts/types.jst": b"TYPE @b any\nINCLUDE get.jst\n",
+                "parts/get.jst": b"GET /x\n  200 @A\n  404 @b\n"})
+    out.append({"root.jst": b"JSIGHT 0.3\nINCLUDE A.jst\nGET /y\n  200 @t\n",
+                "A.jst": b"INCLUDE a.jst\n", "a.jst": b"INCLUDE A.JST\n", "A.JST": b"TYPE @t any\n"})
+    out.append({"root.jst": b"JSIGHT 0.3\nINCLUDE a/inc.jst\nINCLUDE b/inc.jst\n",
+                "a/inc.jst": b"GET /a\n  INCLUDE resp.jst\n", "a/resp.jst": b"200 any\n",
+                "b/inc.jst": b"GET /b\n  INCLUDE resp.jst\nTYPE @tb any\n", "b/resp.jst": b"201 any\n"})
+    out.append({"root.jst": b"JSIGHT 0.3\nINCLUDE a/inc.jst\n",
+                "a/inc.jst": b"TYPE @one any\nINCLUDE sub/inc.jst\n",
+                "a/sub/inc.jst": b"TYPE @two any\nINCLUDE sub/inc.jst\n",
+                "a/sub/sub/inc.jst": b"INCLUDE leaf.jst\n", "a/sub/sub/leaf.jst": b"GET /leaf\n  200 @one\n  404 @two\n"})
+    return out
+
+
 def deep_chain_projects():
     """include chains nested far deeper than any fixture (the language sets no limit): every level
     declares something before and after its INCLUDE, in a directory one level further down; with and
@@ -195,7 +216,7 @@ def matches_finding(v, f):
 def run(tier, out, model_ok, proof):
     rng = random.Random(seed())
     big = tier == "thorough"
-    projects = special_projects() + padded_fault_projects() + deep_chain_projects() + twin_projects(rng, 300 if big else 40) + context_fault_projects(rng, 400 if big else 60)
+    projects = special_projects() + padded_fault_projects() + deep_chain_projects() + twin_projects(rng, 300 if big else 40) + context_fault_projects(rng, 400 if big else 60) + near_name_projects()
     for i in range(2500 if big else 300):
         roots = treecorr.gen_structured(rng, with_macros=rng.random() < 0.25)
         if rng.random() < 0.25:
@@ -263,7 +284,7 @@ def run(tier, out, model_ok, proof):
     out.coverage.update({
         "evaluations": len(cases),
         "distinct_nontrivial": sum(1 for _, f, _ in metas if len(f) > 1),
-        "rule": "structured documents (some with one injected rule fault) cut at directive boundaries into include trees (whole sibling runs, or any contiguous run of directive lines; nesting <= 3, pieces in sub-directories, equal sibling runs included from the same file, files without a final newline, cuts after directives that still wait for children) + hand-picked projects + rule faults inside included files that begin and end with blank lines or blanks + include chains 5 to 33 levels deep (with and without a rule fault in the innermost file) + documents with a context-refused directive as the last one before an INCLUDE (the included file a continuation, empty, comment-only; INCLUDE without a final line end; nested) + projects in which one written include name is used from several directories and names different files; each project is built and compared with its textual inlining (lib/meta.py): catalog JSON, or message and corresponding file:line; forests are compared with the extracted Coq model; non-trivial = at least one INCLUDE",
+        "rule": "structured documents (some with one injected rule fault) cut at directive boundaries into include trees (whole sibling runs, or any contiguous run of directive lines; nesting <= 3, pieces in sub-directories, equal sibling runs included from the same file, files without a final newline, cuts after directives that still wait for children) + hand-picked projects + rule faults inside included files that begin and end with blank lines or blanks + include chains 5 to 33 levels deep (with and without a rule fault in the innermost file) + documents with a context-refused directive as the last one before an INCLUDE (the included file a continuation, empty, comment-only; INCLUDE without a final line end; nested) + projects in which one written include name is used from several directories and names different files + chains of includers whose paths differ only by letter case or share a base name; each project is built and compared with its textual inlining (lib/meta.py): catalog JSON, or message and corresponding file:line; forests are compared with the extracted Coq model; non-trivial = at least one INCLUDE",
         "samples": [{n: d.decode("latin1")[:200] for n, d in projects[0].items()}],
         "traces_validated_against_impl": (len([c for c in cases if c["id"].startswith("p")]) - len(mism)) if model_ok else 0,
         "accepted_pairs": acc, "rejected_pairs": rej,
